@@ -177,6 +177,7 @@ ALL = [f"C{i:02d}" for i in range(1, 21)]
 HISTORY_FREE = " (HISTORY-FREE) no routine of the modules this property is anchored in makes its result depend on earlier calls: a memo table (module-level container written at run time) is keyed by everything its value is computed from -- per facet: value / shape / dtype-and-device of an array -- no key component drops the values of a mapping, a value taken from a memo table or a functools cache is never modified in place, and no module global is rebound at run time (a cache the rule can prove consistent is accepted)."
 MASK_ARGMAX = " (MASK-ARGMAX) in the anchored modules no argmax / argmin is taken over a boolean mask without an any() / all() test of that mask in the same function (the position of the first True is 0 also when nothing is True)."
 EXTRA = {
+    "C01": " (PRIM-IS-NUMPY) the NumPy backend's reshape / moveaxis / transpose are NumPy's own functions (registered by name from numpy, read by a small evaluator of the registration loops) or methods that return exactly np.<name>(their parameters): the trusted base of the layout rules is what it is assumed to be.",
     "C12": " (RANK-ON-DATA) an operator that ranks entries (sort / argsort) to find its threshold or support ranks its own input: the ranked array reaches the tensor parameter through re-arrangements, negation or absolute value only.",
     "C06": " (MASK-FORWARD) a driver that takes a `mask` hands (something computed from) it to the routine that computes its reported error (error_calc), never a constant or the default.",
     "C13": " (START-FREE) admm with no constraint and an iteration budget >= 1: the returned primal has no data dependence on the start values x and dual_var on any branch-consistent path.",
